@@ -1,5 +1,5 @@
 #!/bin/bash
-# Offline build of every check binary (warms the Go build cache).
+# Offline build of every check binary (warms the Go build cache); run once after a fresh restore.
 export GOFLAGS=-mod=mod GOPROXY=off GOSUMDB=off GOTOOLCHAIN=local
 cd /verif || exit 1
 mkdir -p .work/bin evidence replays
@@ -9,6 +9,10 @@ for d in checks/*/; do
   if [ -f "$d/main.go" ]; then
     go build -tags verif -o ".work/bin/$lc" "./checks/$lc" || rc=1
   fi
-  if [ -x "$d/setup.sh" ]; then "$d/setup.sh" || rc=1; fi
 done
+# schedule-exploration machinery: instrumenter, instrumented worker, -race worker
+go build -o .work/bin/instr ./tools/instr || rc=1
+.work/bin/instr -repo /repo -out /verif/.work/instr >/dev/null || rc=1
+go build -modfile=.work/instr/go.mod -tags verif -o .work/bin/sched ./checks/sched || rc=1
+go build -race -tags verif -o .work/bin/sched_race ./checks/sched || rc=1
 exit $rc
